@@ -14,7 +14,10 @@ RULE_B = ("a real CompassApp built from TOML on a generated 5x5 grid network (+ 
           "vertex / missing or ill-typed fields / non-object / grid-search (1-2 dimensions, object-valued entries, over the "
           "weight estimate, degenerate sections) / duplicates, weight estimates absent / numeric (0, negative, 1e308) / "
           "ill-typed; each case = one batch order x one configuration (configured parallelism 0,1,2,3,8,16, per-run override "
-          "1..16 and > n, load balancer plugin on/off, both persistence policies, ndjson file sink or none, rayon pool of "
+          "1..16 and > n, load balancer plugin on/off, both persistence policies, file sink (newline-delimited JSON, JSON array "
+          "or CSV through the real format_response; file_flush_rate unset,1,2,3,4,7,100,> batch: every record must be in the file "
+          "when run returns) or none, traversal route format edge_id/wkt/json/geo_json/wkb by variant, origin == destination "
+          "queries (empty route) in the mix, CompassApp::run under catch_unwind (a panic is the outcome `Panic`), rayon pool of "
           "1,2,4,16 threads), run 2-3 times (must agree); canonical response = (request, error text | route cost, "
           "traversal_summary, path) with clock/memory fields dropped; I = returned vector in order + sink content as a "
           "multiset; M = Batch.run composed from what the real apply_input_plugins / get_query_weight_estimate / "
